@@ -400,6 +400,7 @@ PROPS = {
     "C16": dict(chk=[16], n=(600, 6000), tiny=(0, 0), modes=["wrapping", "checked"]),
     "C17": dict(chk=[17, 8, 2, 3], n=(300, 2500), tiny=(0, 10), modes=["wrapping", "checked"]),
     "C18": dict(chk=[8, 2], n=(500, 4000), tiny=(0, 10), progress=True),
+    "C19": dict(chk=[2, 8, 5], n=(300, 2000), tiny=(6, 30)),
 }
 
 
@@ -503,6 +504,13 @@ def parse_case_text(txt):
             cur["freeze"] = [int(w[1]), int(w[2])]
         elif w[0] == "elem":
             cur["elem"] = w[1]
+        elif w[0] == "c0":
+            cur["c0"] = int(w[1])
+        elif w[0] == "multi":
+            cur["multi"] = int(w[1])
+            cur["mprogs"] = [[] for _ in cur["progs"]]
+        elif w[0] == "mprog":
+            cur["mprogs"][int(w[1])] = w[2:]
         elif w[0] == "sched":
             cur["sched"] = None if w[1] == "-" else ([] if w[1] == "." else [int(x) for x in w[1].split(",")])
         elif w[0] == "end":
@@ -1115,3 +1123,143 @@ def special_c15(prop, tier, seed, bins, out, problems):
 
 
 SPECIAL["C15"] = special_c15
+
+
+def special_c19(prop, tier, seed, bins, out, problems):
+    """several iterators over one collection (fresh ones and clones made by the threads at arbitrary points) are driven
+    together on the crate under one schedule.  The history of every single iterator, with the steps the threads took on
+    it, must be the history the model gives for that iterator ALONE, started at the position it was created with; a
+    clone reads the position of its original exactly once and writes nothing; delivered references point at the
+    collection's own elements; the collection is unmodified afterwards, nothing was cloned or dropped."""
+    binp = bins.get("wrapping")
+    if binp is None:
+        return
+    n = 250 if tier == "quick" else 2500
+    r = gen_cases.Rng(seed * 1913 + 19)
+    cases = [gen_cases.gen_multi(r, "C19-m-%d" % i) for i in range(n)]
+    corp = []
+    for name, txt in load_corpus(prop):
+        for c in parse_case_text(txt):
+            if c.get("multi"):
+                c["id"] = "corpus-%s-%s" % (name.replace(".case", ""), c["id"])
+                corp.append(c)
+    cases = corp + cases
+    itraces, dead = run_impl(binp, cases)
+    iblocks, _ = parse_blocks(itraces)
+    proj = []          # single-iterator cases, one per iterator of every history
+    proj_lines = {}
+    owner = {}
+    for c in cases:
+        cid = c["id"]
+        il = iblocks.get(cid)
+        if cid in dead or il is None:
+            out["violations"].append(dict(case=c, stream="multi", checker="process",
+                                          what="the harness process died on this case: %s" % dead.get(cid, "no output")))
+            continue
+        c2 = json.loads(json.dumps(c))
+        c2["sched"] = sched_of(il)
+        bad = None
+        per = {}
+        c0 = {j: 0 for j in range(c["multi"])}
+        cur = dict(c0)
+        pending_clone = {}
+        for l in il:
+            m = re.match(r"^#(\d+) (.*)$", l)
+            if not m:
+                if l.startswith("X ") or (l.startswith("S ") and l != "S intact=1 clones=0 drops=0"):
+                    bad = bad or ("the source is not left intact: `%s`" % l)
+                continue
+            j, body = int(m.group(1)), m.group(2)
+            if body.startswith("X "):
+                bad = bad or ("a delivered reference does not point at the collection's element: `%s`" % body)
+                continue
+            if body.startswith("K "):
+                w = body.split()
+                if w[2] == "clone":
+                    pending_clone[(j, int(w[1]))] = dict(slot=int(w[3]), loads=[])
+                elif w[2] == "atom":
+                    pc = pending_clone.get((j, int(w[1])))
+                    if w[3] == "N":
+                        pass      # accesses to the counter of the clone under construction (not shared yet)
+                    elif pc is None or w[4] != "load":
+                        bad = bad or ("clone() of iterator %d performs `%s` on the original's counter" % (j, " ".join(w[2:])))
+                    else:
+                        pc["loads"].append(int(w[6]))
+                        pc["at"] = cur.get(j, 0)      # the position of the original at the moment of the read
+                elif w[2] == "cloned":
+                    pc = pending_clone.pop((j, int(w[1])), None)
+                    start = int(w[4].split("=")[1])
+                    if pc is None or len(pc["loads"]) != 1:
+                        bad = bad or ("clone() of iterator %d reads the original's counter %d times" % (j, len(pc["loads"]) if pc else 0))
+                    else:
+                        v = pc["loads"][0]
+                        if v != pc["at"]:
+                            bad = bad or ("clone() of iterator %d read position %d, the original is at %d" % (j, v, pc["at"]))
+                        elif start != v:
+                            bad = bad or ("the clone of iterator %d starts at position %d, the original was at %d" % (j, start, v))
+                        c0[pc["slot"]] = start
+                        cur[pc["slot"]] = start
+                else:
+                    bad = bad or ("clone() of iterator %d: `%s`" % (j, body))
+                continue
+            per.setdefault(j, []).append(body)
+            ma = re.match(r"^L \d+ atom C (add|store) (\d+) (\d+)", body)
+            if ma:
+                cur[j] = (int(ma.group(2)) + int(ma.group(3))) % (1 << 64) if ma.group(1) == "add" else int(ma.group(2))
+        if bad:
+            out["violations"].append(dict(case=c2, stream="multi", checker="multi", impl_trace=il, what=bad))
+            continue
+        if any(l.startswith("complete 0") for l in il):
+            out["violations"].append(dict(case=c2, stream="multi", checker="progress", impl_trace=il, what="a call did not return in a multi-iterator history"))
+            continue
+        nt = len(c["mprogs"])
+        for j, lines in sorted(per.items()):
+            progs = [[tok.split(":", 1)[1] for tok in c["mprogs"][t] if tok.startswith("@%d:" % j) and ":clone:" not in tok] for t in range(nt)]
+            # the clones of a thread that were never created (the cloning panicked) are reported above
+            pc = dict(id="%s#%d" % (cid, j), env=c["env"], progs=progs, final="none", seed=0, gen="random",
+                      sched=[int(l.split()[1]) for l in lines if l.startswith("L ")], c0=c0.get(j, 0))
+            proj.append(pc)
+            proj_lines[pc["id"]] = lines + ["complete 1"]
+            owner[pc["id"]] = c2
+    out["evaluations"] += len(cases)
+    out["random_schedules"] += len(cases)
+    if not proj:
+        return
+    text = "".join(gen_cases.fmt_case(c) for c in proj)
+    mblocks, order = parse_blocks(run_model(text))
+    cases_path = os.path.join(BUILD, "tmp", "%s-multi-%d.cases" % (prop, os.getpid()))
+    os.makedirs(os.path.dirname(cases_path), exist_ok=True)
+    open(cases_path, "w").write(text)
+    itext = "".join("case %s\n%s\nend\n" % (pid, "\n".join(proj_lines[pid])) for pid in order)
+    chk, flags = run_chk(cases_path, itext, [2, 3, 5, 8])
+    os.unlink(cases_path)
+    ok = 0
+    for pc in proj:
+        pid = pc["id"]
+        ml = mblocks.get(pid, [])
+        il = proj_lines[pid]
+        failed = [p for p, good in chk.get(pid, {}).items() if not good]
+        if failed:
+            out["violations"].append(dict(case=owner[pid], stream="multi", checker="chk_C%02d" % int(failed[0]), impl_trace=il, model_trace=ml,
+                                          what="iterator %s of a multi-iterator history: checker(s) %s return false on its history" % (pid, ",".join(failed))))
+            continue
+        ie = [norm_line(l) for l in il if l.startswith("E ")]
+        me = [norm_line(l) for l in ml if l.startswith("E ")]
+        if ie != me:
+            k = next((i for i in range(max(len(ie), len(me))) if (ie[i] if i < len(ie) else None) != (me[i] if i < len(me) else None)), 0)
+            out["violations"].append(dict(case=owner[pid], stream="multi", checker="independence", impl_trace=il, model_trace=ml,
+                                          what="iterator %s does not progress independently: started at position %d and driven by the same steps alone, the model gives `%s`, the crate `%s`"
+                                               % (pid, pc["c0"], me[k] if k < len(me) else "<nothing>", ie[k] if k < len(ie) else "<nothing>")))
+            continue
+        d = first_diff(ml, il)
+        if d is not None:
+            out["divergences"].append(dict(case=owner[pid], stream="multi", impl_trace=il, model_trace=ml,
+                                           what="iterator %s: model and implementation differ at line %d: model `%s` / implementation `%s`" % ((pid,) + d)))
+            continue
+        ok += 1
+    out["traces_validated_against_impl"] += ok
+    out["distinct_nontrivial"] += ok
+    extra_coverage.setdefault(prop, {}).update(multi_iterator_histories=len(cases), single_iterator_projections=ok)
+
+
+SPECIAL["C19"] = special_c19
